@@ -211,6 +211,10 @@ func (f *PostProcessorRegistrationDelegate) applyPostProcessBeforeInstantiation(
 }
 
 func (f *PostProcessorRegistrationDelegate) ResolveAfterInstantiation(meta *component_definition.Meta, name string) error {
+	//candidates are collected anew for every creation attempt: what an earlier (failed) attempt collected or injected must not be appended to
+	for _, prop := range meta.GetComponentProperties() {
+		prop.Injects = nil
+	}
 	for _, processor := range f.componentPostProcessors {
 		if ipb, ok := processor.(container.InstantiationAwareComponentPostProcessor); ok {
 			ok, err := ipb.PostProcessAfterInstantiation(meta.Raw, name)
